@@ -28,9 +28,10 @@ KNOWN = [
     {
         "id": "C03-symbolic-panic-code",
         "property": "C03",
-        "what": "a path reverting with Panic(x) whose code x is a symbolic term (e.g. `if (x == 1) revert Panic(x)`) is not "
-                "classified as an assertion failure (CallOutput.is_panic_of: 'symbolic error code will be silently ignored'): "
-                "halmos prints a clean [PASS] although x = 1 ends the concrete execution in Panic(1)",
+        "what": "a path reverting with Panic(x) whose code x is a symbolic term not pinned by an equality branch (e.g. "
+                "`check(uint256 x, uint256 y) { if (y > 5) revert Panic(x) }`) is not classified as an assertion failure "
+                "(CallOutput.is_panic_of: 'symbolic error code will be silently ignored'): halmos prints a clean [PASS] although "
+                "x = 1, y = 6 ends the concrete execution in Panic(1)",
         "match": {"kind": "clean-pass-with-violation", "family": "symbolic-panic-code"},
     },
     {
@@ -269,6 +270,12 @@ def special_contracts():
     out.append(({"cname": "T", "setup": [], "tests": [
         {"name": "check_symcode", "params": ["uint256"], "clauses": [[["eq", ["arg", 0], ["const", 77]], ["panic_sym", 0]]]},
     ]}, "*", "symbolic-panic-code-star"))
+    # 1b. symbolic selector: is_panic_of raises, run_tests prints [ERROR] (never PASS)
+    sel_word = l3.PANIC_SELECTOR << 224
+    out.append(({"cname": "T", "setup": [], "tests": [
+        {"name": "check_symsel", "params": ["uint256", "uint256"],
+         "clauses": [[["cor", ["gt", ["arg", 1], ["const", 5]], ["eq", ["arg", 0], ["const", sel_word + 1]]], ["revert_word", 0]]]},
+    ]}, "*", "symbolic-selector"))
     # 2. msg.data.length of a shorter admissible argument
     out.append(({"cname": "T", "setup": [], "tests": [
         {"name": "check_cdsize", "params": ["bytes"], "clauses": [[["eq", ["cdsize"], ["const", 68]], ["panic", 1]]]},
@@ -315,20 +322,11 @@ def l3_tie(rep, m, tier, r):
     from harness import refevm
 
     refevm.driver()
-    import time
-
     tasks = gen_l3_tasks(r, tier)
-    # the hand-made contracts and a core of generated ones always run to completion (whatever the
-    # machine load); the remaining ones fill the time budget of the tier
+    # hand-made contracts first; every task runs to completion (per-task hard timeout); the total
+    # timeout only bounds a pathologically loaded machine (unfinished tasks are counted, not failed)
     tasks.sort(key=lambda t: t["family"] == "grammar")
-    n_core = sum(1 for t in tasks if t["family"] != "grammar") + (5 if tier == "quick" else 60)
-    t0 = time.time()
-    res = l3.run_pool(T.l3_worker, tasks[:n_core], timeout=200, total_timeout=600)
-    budget = (55 if tier == "quick" else 900) - (time.time() - t0)
-    if budget > 8 and tasks[n_core:]:
-        res += l3.run_pool(T.l3_worker, tasks[n_core:], timeout=150, total_timeout=budget)
-    else:
-        res += [("skipped", None)] * len(tasks[n_core:])
+    res = l3.run_pool(T.l3_worker, tasks, timeout=240, total_timeout=420 if tier == "quick" else 1100)
     items, keep = [], []
     rep.coverage["l3_tasks"] = [[t["family"], " ".join(t["options"]), st, (val or {}).get("seconds") if st == "ok" else None] for t, (st, val) in zip(tasks, res)]
     for task, (st, val) in zip(tasks, res):
